@@ -1,3 +1,79 @@
-import Model.Col
-open Model Model.Col
-theorem C01_placeholder : True := trivial
+import Proofs.Col
+/-
+C01 — Block encode→decode is the identity for every column type and nesting.
+
+`Model.Col` represents a column by the fields the Go types keep (offsets + data, nulls +
+values, logical rows of LowCardinality / Enum columns …).  `WF` is what the public API
+can build within the library's own limits.  Theorems are by structural induction over the
+contents, so they cover every nesting depth and every value sequence.
+-/
+open Model Model.Col Model.Parser
+
+/-- **Column round trip** (typed target = the column's own type): for every well-formed
+column of every type and nesting, decoding what the encoder produced — followed by anything —
+yields exactly the contents and leaves exactly what followed. -/
+theorem C01_column_roundtrip (cfg : Cfg) (hcap : cfg.cap = none) (c : Col) (r : Bytes) (h : WF cfg c) :
+    decCol cfg c.ty c.rows (encCol c [] ++ r) = .ok (c, r) :=
+  col_rt cfg hcap c r h
+
+/-- **The bytes produced for a column depend only on its contents, not on what the output buffer
+already contained** — for the column body … -/
+theorem C01_append_only (c : Col) (buf : Bytes) : encCol c buf = buf ++ encCol c [] :=
+  encCol_append c buf
+
+/-- … and for the state prefix. -/
+theorem C01_state_append_only (c : Col) (buf : Bytes) : encState c buf = buf ++ encState c [] :=
+  encState_append c buf
+
+/-- the state prefix written for a column is accepted by the decoder of its type and consumed exactly -/
+theorem C01_state_roundtrip : ∀ (c : Col) (r : Bytes), decState c.ty (encState c [] ++ r) = .ok ((), r) := by
+  intro c
+  induction c with
+  | arr offs d ih => intro r; simp only [Col.ty, decState, encState]; exact ih r
+  | nullable nulls v ih => intro r; simp only [Col.ty, decState, encState]; exact ih r
+  | lc t rows =>
+    intro r
+    simp only [Col.ty, decState, encState, List.nil_append]
+    rw [bind_ok' (le8_i64le 1 (by decide) r)]
+    rfl
+  | map offs k v ihk ihv =>
+    intro r
+    simp only [Col.ty, decState, encState]
+    rw [encState_append v, List.append_assoc, bind_ok' (ihk _)]
+    exact ihv r
+  | pair a b iha ihb =>
+    intro r
+    simp only [Col.ty, decState, encState]
+    rw [encState_append b, List.append_assoc, bind_ok' (iha _)]
+    exact ihb r
+  | _ => intro r; simp [Col.ty, decState, encState, Parser.pure]
+
+/-- LowCardinality: whatever the dictionary order and key width `Prepare` chose, the decoder's
+key lookup restores the logical rows -/
+theorem C01_lowcardinality_dictionary (t : Ty) (rows : List Bytes)
+    (hex : ∀ a ∈ rows, ∀ b ∈ rows, keyEq t a b = true → a = b) :
+    lcLookup (lcPrepare t [] rows).1 (lcPrepare t [] rows).2 = some rows := by
+  obtain ⟨_, _, _, _, _, h⟩ := lcPrepare_lookup t rows [] (by simpa using hex)
+  exact h
+
+/-- the full statement for LowCardinality(Float): it does not hold when a column mixes +0.0 and
+−0.0 (known finding F20, replayed on the implementation on every run) … -/
+def C01.lc_float_full : Prop :=
+  ∀ rows : List Bytes, (∀ x ∈ rows, x.length = 8) →
+    lcLookup (lcPrepare (.fixed 8 .float) [] rows).1 (lcPrepare (.fixed 8 .float) [] rows).2 = some rows
+
+theorem C01_lc_float_full_refuted : ¬ C01.lc_float_full := by
+  intro h
+  have := h [[0, 0, 0, 0, 0, 0, 0, 0], [0, 0, 0, 0, 0, 0, 0, 128]] (by decide)
+  revert this
+  decide
+
+/-! ### non-vacuity: Array(LowCardinality(String)) with an empty inner array, and a NaN-bearing
+Map(String, Float64) -/
+example : WF { strLim := none, cap := none }
+    (.arr [1, 1, 3] (.lc .str [[97], [98], [97]])) := by
+  simp [WF, sortedB, lastOff, Col.rows, scalarRowsOK, strRowsOK, Parser.limOK, keyEq]
+
+example : WF { strLim := none, cap := none }
+    (.map [2] (.str [[107], [108]]) (.fixed 8 .float [[0, 0, 0, 0, 0, 0, 248, 127], [0, 0, 0, 0, 0, 0, 0, 128]])) := by
+  simp [WF, sortedB, lastOff, Col.rows, strRowsOK, Parser.limOK]
